@@ -3,6 +3,7 @@ import Sismic.Proofs.EditInv
 import Sismic.Proofs.EditTree
 import Sismic.Proofs.EditRefs
 import Sismic.Proofs.EditValid
+import Sismic.Proofs.EditAddIff
 import Sismic.Proofs.EditAcyclic
 import Sismic.Proofs.EditRemove
 import Sismic.Props.C02
@@ -200,6 +201,41 @@ theorem validate_passes_after_add (c : Chart) (s : StateDef) (p : Option Name) (
     **`validate()` passes afterwards.** -/
 theorem any_edit_session_keeps_validate_passing (ops : List EditOp) (c : Chart) (ht : Tidy c) (hv : c.validate = true)
     (hops : ∀ op ∈ ops, op.Bare) : (c.applyEdits ops).validate = true := applyEdits_validate ops c ht hv hops
+
+/-- **`add_state` and `validate()`, exactly.**  After a successful `add_state(s, p)` on a consistent
+    statechart on which `validate()` passes, `validate()` passes **iff** `s` fits under `p`: a compound
+    state comes without `initial` (it has no child yet), a history state without `memory` or with a
+    memory that already is another child of `p`.  The hypothesis of `validate_passes_after_add` is thus
+    weakened to the condition that is necessary as well. -/
+theorem validate_after_add_iff (c : Chart) (s : StateDef) (p : Option Name) (ht : Tidy c) (hv : c.validate = true)
+    (h : (c.addState s p).1 = .ok ()) : (c.addState s p).2.validate = true ↔ s.FitsUnder c p :=
+  addState_validate_iff c s p ht hv h
+
+/-- **Any session whose added states fit where they are put** (decided against the statechart each
+    `add_state` is applied to; bare states always fit) **keeps `validate()` passing** — every
+    operation succeeding or raising. -/
+theorem any_fitting_edit_session_keeps_validate_passing (ops : List EditOp) (c : Chart) (ht : Tidy c)
+    (hv : c.validate = true) (hops : FitsSession ops c) : (c.applyEdits ops).validate = true :=
+  applyEdits_validate_fits ops c ht hv hops
+
+/-! non-vacuity: on the example statechart of C02, a deep history state remembering `y` fits under `p1`
+(and is accepted there), a history state remembering a state of another region does not, and a compound
+state that arrives with an `initial` never does -/
+example : ({ name := "h2", kind := .deep, memory := some "y" } : StateDef).FitsUnder C02.exChart (some "p1") := by
+  constructor
+  · intro h; cases h
+  · intro _ m hm
+    cases hm
+    exact ⟨by decide, "p1", rfl, by decide⟩
+example : (C02.exChart.addState { name := "h2", kind := .deep, memory := some "y" } (some "p1")).1 = .ok () := by rfl
+example : ¬ ({ name := "h2", kind := .deep, memory := some "u" } : StateDef).FitsUnder C02.exChart (some "p1") := by
+  intro h
+  obtain ⟨_, par, hp, hm⟩ := h.2 rfl "u" rfl
+  cases hp
+  revert hm
+  decide
+example : ¬ ({ name := "k", kind := .compound, initial := some "a" } : StateDef).FitsUnder C02.exChart (some "r") :=
+  fun h => by have := h.1 rfl; cases this
 
 /-! ### still one tree -/
 
